@@ -128,12 +128,7 @@ Definition slice_items (v : val) : option (list val) :=
 (* equal(xa, xb).  Maps and Dicts compared BY CONTENT are outside the model (they are
    unhashable, so no Dict operation ever reaches that code): the model answers false. *)
 Fixpoint go_equal (a b : val) {struct a} : bool :=
-  let fix all2 (l1 l2 : list val) : bool :=
-    match l1, l2 with
-    | [], [] => true
-    | x :: t1, y :: t2 => go_equal x y && all2 t1 t2
-    | _, _ => false
-    end in
+  let all2 := all2 go_equal in
   match a with
   | VStr x => match b with VStr y | VBStr y => bytes_eqb x y | _ => false end
   | VBStr x => match b with VStr y | VBStr y | VBytes y => bytes_eqb x y | _ => false end
@@ -170,12 +165,12 @@ Fixpoint go_equal (a b : val) {struct a} : bool :=
 
 (* ---- hash: what is fed to maphash ------------------------------------------ *)
 
+(* HS s: maphash.String(seed, s).  HN parts: Hash.Write* calls then Sum64, where a part is
+   either raw bytes (HB) or the 8-byte hash of a sub-object under the same seed (HS / HN). *)
 Inductive hin : Type :=
-| HS (s : bytes)                       (* maphash.String(seed, s) *)
-| HW (parts : list hpart)              (* Hash.Write* calls, then Sum64 *)
-with hpart : Type :=
-| PB (b : bytes)                       (* raw bytes written *)
-| PH (h : hin).                        (* 8 bytes: the hash of a sub-object, same seed *)
+| HS (s : bytes)
+| HB (b : bytes)
+| HN (parts : list hin).
 
 Definition u64be (z : Z) : bytes := be_encode 8 (Z.to_N (wrap_u 64 z)).
 
@@ -197,64 +192,50 @@ Definition big_bytes (z : Z) : bytes :=
 
 (* None = panic "unhashable type: ..." *)
 Fixpoint go_hash (v : val) : option hin :=
-  let fix parts (l : list val) : option (list hpart) :=
-    match l with
-    | [] => Some []
-    | x :: t =>
-        match go_hash x, parts t with
-        | Some h, Some ps => Some (PH h :: ps)
-        | _, _ => None
-        end
-    end in
+  let parts := fun l => map_opt go_hash l in
   match v with
   | VStr s | VBStr s | VBytes s => Some (HS s)
-  | VBool b => Some (HW [PB (u64be (bint b))])
-  | VInt z => Some (HW [PB (u64be z)])
-  | VUint z => Some (HW [PB (u64be z)])
-  | VFloat f => Some (HW [PB (hash_float f)])
+  | VBool b => Some (HN [HB (u64be (bint b))])
+  | VInt z => Some (HN [HB (u64be z)])
+  | VUint z => Some (HN [HB (u64be z)])
+  | VFloat f => Some (HN [HB (hash_float f)])
   | VComplex re im =>
-      Some (HW (PB (hash_float re) :: if f_is_zero_eq im then [] else [PB (hash_float im)]))
+      Some (HN (HB (hash_float re) :: if f_is_zero_eq im then [] else [HB (hash_float im)]))
   | VBig _ z =>
-      if in_int64 z || in_uint64 z then Some (HW [PB (u64be z)])
+      if in_int64 z || in_uint64 z then Some (HN [HB (u64be z)])
       else match Z_to_f64_exact z with
-           | Some f => Some (HW [PB (hash_float f)])
-           | None => Some (HW [PB (bs "bigInt"); PB (big_bytes z)])
+           | Some f => Some (HN [HB (hash_float f)])
+           | None => Some (HN [HB (bs "bigInt"); HB (big_bytes z)])
            end
   | VTuple l =>
-      match parts l with Some ps => Some (HW (PB (bs "tuple") :: ps)) | None => None end
-  | VNone => Some (HW [PB (bs "None")])
-  | VMark => Some (HW [PB (bs "mark")])
-  | VUser t => Some (HW [PB (bs "UserObj"); PH (HW [PB (u64be (Z.of_N t))])])
-  | VClass m n => Some (HW [PB (bs "Class"); PH (HS m); PH (HS n)])
+      match parts l with Some ps => Some (HN (HB (bs "tuple") :: ps)) | None => None end
+  | VNone => Some (HN [HB (bs "None")])
+  | VMark => Some (HN [HB (bs "mark")])
+  | VUser t => Some (HN [HB (bs "UserObj"); HN [HB (u64be (Z.of_N t))]])
+  | VClass m n => Some (HN [HB (bs "Class"); HS m; HS n])
   | VCall m n l =>
       match parts l with
-      | Some ps => Some (HW [PB (bs "Call");
-                             PH (HW [PB (bs "Class"); PH (HS m); PH (HS n)]);
-                             PH (HW (PB (bs "tuple") :: ps))])
+      | Some ps => Some (HN [HB (bs "Call");
+                             HN [HB (bs "Class"); HS m; HS n];
+                             HN (HB (bs "tuple") :: ps)])
       | None => None
       end
-  | VRef p => match go_hash p with Some h => Some (HW [PB (bs "Ref"); PH h]) | None => None end
+  | VRef p => match go_hash p with Some h => Some (HN [HB (bs "Ref"); h]) | None => None end
   | VBArr _ | VList _ _ | VMap _ | VDict _ => None
   end.
 
 Fixpoint hin_eqb (a b : hin) {struct a} : bool :=
-  let fix ps_eqb (l1 l2 : list hpart) : bool :=
-    match l1, l2 with
-    | [], [] => true
-    | PB x :: t1, PB y :: t2 => bytes_eqb x y && ps_eqb t1 t2
-    | PH x :: t1, PH y :: t2 => hin_eqb x y && ps_eqb t1 t2
-    | _, _ => false
-    end in
   match a, b with
   | HS x, HS y => bytes_eqb x y
-  | HW l1, HW l2 => ps_eqb l1 l2
+  | HB x, HB y => bytes_eqb x y
+  | HN l1, HN l2 => all2 hin_eqb l1 l2
   | _, _ => false
   end.
 
 Definition hashable (v : val) : bool := match go_hash v with Some _ => true | None => false end.
 
 (* maphash.String(seed,s) == Write(s);Sum64: HS s and HW [PB s] are the same hash *)
-Definition hin_norm (h : hin) : hin := match h with HS s => HW [PB s] | _ => h end.
+Definition hin_norm (h : hin) : hin := match h with HS s => HN [HB s] | _ => h end.
 Definition hash_same (a b : val) : bool :=
   match go_hash a, go_hash b with
   | Some x, Some y => hin_eqb (hin_norm x) (hin_norm y)
@@ -291,12 +272,7 @@ Definition pynum_of (v : val) : option (rnum * rnum) :=
   end.
 
 Fixpoint py_eq (a b : val) {struct a} : bool :=
-  let fix all2 (l1 l2 : list val) : bool :=
-    match l1, l2 with
-    | [], [] => true
-    | x :: t1, y :: t2 => py_eq x y && all2 t1 t2
-    | _, _ => false
-    end in
+  let all2 := all2 py_eq in
   match a, b with
   (* text / bytes: str <> bytes; a Python-2 str equals both *)
   | VStr x, VStr y | VStr x, VBStr y | VBStr x, VStr y | VBStr x, VBStr y
